@@ -226,6 +226,10 @@ func (s *vrtStore) GetResponseSigningKey(context.Context) (*key.CertificateAndKe
 func (s *vrtStore) GetEntityByID(ctx context.Context, entityID string) (*serviceprovider.ServiceProvider, error) {
 	if s.fail("GetEntityByID") || s.sp == nil {
 		s.log("GetEntityByID", false, entityID)
+		if s.sp != nil && vrtBool("st.GetEntityByID.recordWithError") {
+			// an error does not oblige the storage to return a nil record
+			return s.sp, errors.New("vrt: storage fault in GetEntityByID")
+		}
 		return nil, errors.New("vrt: unknown service provider")
 	}
 	s.log("GetEntityByID", true, entityID)
@@ -267,6 +271,10 @@ func (s *vrtStore) AuthRequestByID(ctx context.Context, id string) (models.AuthR
 func (s *vrtStore) SetUserinfoWithUserID(ctx context.Context, appID string, userinfo models.AttributeSetter, userID string, attributes []int) error {
 	if s.fail("SetUserinfoWithUserID") {
 		s.log("SetUserinfoWithUserID", false, appID, userID)
+		if vrtBool("st.SetUserinfoWithUserID.partial") {
+			// the backend failed after it had already written (part of) the record
+			s.user.fill(userinfo)
+		}
 		return errors.New("vrt: storage fault in SetUserinfoWithUserID")
 	}
 	s.log("SetUserinfoWithUserID", true, appID, userID)
@@ -402,6 +410,13 @@ func vrtEarlierRequest(p *Provider, st *vrtStore, kind int) {
 		st.user = vrtNewUser("hist.user", false, 0, 0)
 		vrtAssume(st.user.email != "")
 		vrtAssume(st.user.username != "")
+		// the earlier user has one custom attribute with one value (so that data of one
+		// session surfacing in another is visible)
+		st.user.nCustom = 1
+		st.user.cName = []string{vrtStr("hist.user.custom.name")}
+		st.user.cFriendly = []string{vrtStr("hist.user.custom.friendly")}
+		st.user.cFormat = []string{vrtStr("hist.user.custom.format")}
+		st.user.cValues = [][]string{{vrtStr("hist.user.custom.value")}}
 		st.entityID = vrtStr("hist.audience")
 		rb := vrtNewRequest("hist.req", "GET", "/login")
 		vrtReqNoExtras(rb)
